@@ -119,7 +119,8 @@ FMETRICS = [0, 1, 1, 2.5, -1, "inf", "inf", "-inf", "nan", "nan"]
 
 
 def gen_float_case(rng: Rng) -> dict:
-    """tables whose metrics include inf / -inf / nan, heavy on equal prefixes (that is where the metric decides)"""
+    """tables whose metrics include inf / -inf / nan, heavy on equal prefixes (that is where the metric decides); built through
+    the Python API, through Router.from_config, or from YAML text (`.nan`, `.inf`)"""
     base = rng.choice(["10.1.2.0", "10.1.0.0", "192.168.1.0"])
     routes = []
     for _ in range(rng.range(1, 6)):
@@ -128,7 +129,7 @@ def gen_float_case(rng: Rng) -> dict:
                        "nh": rng.choice(HOPS), "metric": rng.choice(FMETRICS)})
     ops = [{"op": "add", "route": r} for r in routes]
     ops += [{"op": "find", "dst": q} for q in ["10.1.2.3", "10.1.77.1", "192.168.1.5", rng.choice(QUERIES)]]
-    return {"surface": "api-float", "routes": [], "default": None, "ops": ops}
+    return {"surface": rng.choice(["api-float", "api-float", "config-float", "yaml-float"]), "routes": [], "default": None, "ops": ops}
 
 
 def fmetric(x) -> float:
@@ -147,16 +148,40 @@ def float_model_lines(case: dict) -> List[str]:
     return lines
 
 
+def _yaml_metric(x) -> str:
+    return {"inf": ".inf", "-inf": "-.inf", "nan": ".nan"}.get(x, repr(x)) if isinstance(x, str) else repr(float(x))
+
+
 def run_impl_float(case: dict) -> List[str]:
-    from primaite.simulator.network.hardware.nodes.network.router import RouteTable
+    """`refused` for an entry the implementation rejects with a clear error naming the metric (a NaN metric, through whichever
+    surface the case uses: RouteTable.add_route, Router.from_config with the route in the list, the same from YAML text)."""
+    from pydantic import ValidationError
+    from primaite.simulator.network.hardware.nodes.network.router import RouteTable, Router
     from primaite.simulator.system.core.sys_log import SysLog
+    surface = case.get("surface", "api-float")
     rt = RouteTable(sys_log=SysLog("verif"))
     out = ["ok", "ok"]
     for op in case["ops"]:
         if op["op"] == "add":
             r = op["route"]
-            rt.add_route(address=r["addr"], subnet_mask=r["mask"], next_hop_ip_address=r["nh"], metric=fmetric(r["metric"]))
-            out.append("ok")
+            try:
+                if surface == "api-float":
+                    rt.add_route(address=r["addr"], subnet_mask=r["mask"], next_hop_ip_address=r["nh"], metric=fmetric(r["metric"]))
+                else:
+                    if surface == "yaml-float":
+                        import yaml
+                        text = ("type: router\nhostname: r_f\nnum_ports: 2\nroutes:\n"
+                                f"  - address: {r['addr']}\n    subnet_mask: {r['mask']}\n    next_hop_ip_address: {r['nh']}\n"
+                                f"    metric: {_yaml_metric(r['metric'])}\n")
+                        cfg = yaml.safe_load(text)
+                    else:
+                        cfg = {"type": "router", "hostname": "r_f", "num_ports": 2,
+                               "routes": [{"address": r["addr"], "subnet_mask": r["mask"], "next_hop_ip_address": r["nh"], "metric": fmetric(r["metric"])}]}
+                    built = Router.from_config(cfg).route_table.routes
+                    rt.routes.append(built[0])  # the entry as the configuration loader constructed it
+                out.append("ok")
+            except ValidationError as e:
+                out.append("refused" if ("metric" in str(e) and "NaN" in str(e)) else f"refused-unclear:{str(e)[:60]}")
         else:
             try:
                 best = rt.find_best_route(op["dst"])
@@ -182,7 +207,8 @@ def float_oracle(case: dict, answers: List[str]) -> Optional[str]:
         a = answers[k]
         k += 1
         if op["op"] == "add":
-            routes.append(op["route"])
+            if a == "ok":
+                routes.append(op["route"])
             continue
         if not a.startswith("route"):
             continue
